@@ -79,11 +79,11 @@ func (pi pathItem) endAngle(startPoint point) Fl {
 		return 0
 	case lineTo, close:
 		endPoint := pi.args[0]
-		return atan2(endPoint.x-startPoint.x, endPoint.y-startPoint.y)
+		return atan2(endPoint.y-startPoint.y, endPoint.x-startPoint.x)
 	case cubicTo:
 		startPoint = pi.args[1]
 		endPoint := pi.args[2]
-		return atan2(endPoint.x-startPoint.x, endPoint.y-startPoint.y)
+		return atan2(endPoint.y-startPoint.y, endPoint.x-startPoint.x)
 	default:
 		panic("unreachable")
 	}
